@@ -856,6 +856,7 @@ def run_controlled(op, *, prefix=(), is_async=False, batch_order=False, watchdog
 
 # --------------------------------------------------------------------------- harness node functions
 
+IN_FLIGHT: Dict[str, Any] = {}  # node id -> callable run once inside that node's function (while its call is in flight)
 FAIL: Dict[str, str] = {}  # node id -> 'V' | 'U'  (set by the check before running a program)
 RET_NONE: set = set()  # node ids whose function returns None
 RET_OBJ: set = set()  # node ids whose function returns a Resource-like object: identity matters, copying it is an error
@@ -887,6 +888,9 @@ def node_body(fname: str, a: tuple, k: dict):
     if f is not None:
         c.node_exit(nid, serial, "raise")
         raise (ValueError if f == "V" else UserError)(f"boom in {nid}")
+    act = IN_FLIGHT.pop(nid, None)
+    if act is not None:
+        act()  # something the scenario wants done WHILE this call is in flight (e.g. a reconfiguration of the DAG object), once
     c.node_exit(nid, serial, "ok")
     if nid in RET_NONE:
         return None
